@@ -26,6 +26,7 @@ __all__ = ("Processor",)
 from abc import ABC, abstractmethod
 from typing import TYPE_CHECKING, Any
 
+from ._leaf_relation import LeafRelation
 from ._marker_relation import MarkerRelation
 from ._materialization import Materialization
 from ._operation_relations import BinaryOperationRelation, UnaryOperationRelation
@@ -267,5 +268,10 @@ class Processor(ABC):
                         return new_lhs, lhs_persisted
                 if new_lhs is not lhs or new_rhs is not rhs:
                     return operation.apply(new_lhs, new_rhs), False
+                return original, False
+            case LeafRelation():
+                # A leaf with no payload (e.g. a doomed or join-identity
+                # relation of an engine that has no payloads for those) has
+                # nothing upstream to process.
                 return original, False
         raise AssertionError("Match should be exhaustive and all branches should return.")
